@@ -32,6 +32,10 @@ Inductive case :=
      spec_side = true: specification only), so that a case whose specification failure is a listed known finding
      can never hide a disagreement between model and implementation *)
 | CVol (spec_side : bool) (p : pt) (en en2 : list (N * Qc)) (mm : list (N * option N)) (ws2 : list window)
+  (* flatten_and_balance(depth) on a hand-built Loop with the structural rewrites it performed, in order, each with the
+     path of the sub-loop it was applied to (two cases per run as for CRw) *)
+| CFlat (spec_side : bool) (l : loop) (steps : list (list nat * rw)) (dur0 : Qc) (ws0 : list window)
+        (dur1 : Qc) (ws1 : list window)
   (* a case judged on the Python side only (flatten_and_balance / make_compatible: harness py_spec) *)
 | CPyOnly
 | CCrash.
@@ -154,6 +158,13 @@ Definition check_corr (c : case) : bool :=
       | Some l', Some (d, ws) => Qceqb (ldur l') d && ms_eqb (loop_windows l') ws
       | _, _ => false
       end
+  | CFlat true _ _ _ _ _ _ => true
+  | CFlat false l steps d0 ws0 d1 ws1 =>
+      (* replaying the logged rewrites on the model loop gives the loop the code ends with *)
+      match run_seq steps l with
+      | Some (l', _) => sides_ok steps l && Qceqb (ldur l') d1 && ms_eqb (loop_windows l') ws1
+      | None => false
+      end
   | CVol true _ _ _ _ _ => true
   | CVol false p en en2 mm ws2 =>
       match updated_program p (env_of en) (env_of en2) (mm_of mm) with
@@ -198,6 +209,8 @@ Definition check_spec (c : case) : bool :=
   | CRw false _ _ _ _ _ => true
   | CRw true r l d0 ws0 o =>
       match o with None => true | Some (d, ws) => Qceqb d d0 && ms_eqb ws ws0 end
+  | CFlat false _ _ _ _ _ _ => true
+  | CFlat true l steps d0 ws0 d1 ws1 => Qceqb d1 d0 && ms_eqb ws1 ws0
   | CVol false _ _ _ _ _ => true
   | CVol true p en en2 mm ws2 => ms_eqb (denote p (env_of en2) (mm_of mm)) ws2
   | CPyOnly => true
